@@ -52,6 +52,8 @@ def gen_case(seed, k):
                 return ("all",)
             if r < 0.65:
                 return ("none",)
+            if rng.random() < 0.08:
+                return ("custom", [])     # `bound()`: an explicit list without predicates
             n = rng.randint(1, 3)
             preds = [rng.choice(CUSTOM_POOL).format(g=rng.choice(typarams or ["u16"])) for _ in range(n)]
             if rng.random() < 0.2:
